@@ -89,6 +89,8 @@ def cases_at(call, st, addr, names):
     """split on the variant of an enum stored at addr (refines memory in place)"""
     root, path = addr
     tree = st.read_tree(root, path)
+    if call.interp.inspected is not None and (root[0] == "OBJ" or root in call.interp.inspect_roots):
+        call.interp.inspected.add((root, path + (("$v",),)))
     res = cases(st, tree, names)
     for ns, n, t2 in res:
         ns.write_leaf(root, path + (("$v",),), ("variant", n))
